@@ -748,3 +748,65 @@ def mutate(rng, toks, alphabet):
     else:
         toks = toks[: rng.randint(0, len(toks))]
     return toks
+
+
+def permute_grammar(rng):
+    """Family for lookaheads that only MOVE between the kernel items of one state: 2 rules with a shared first terminal
+    (A: a c ; B: a d, sometimes one symbol longer), used in 2-3 contexts whose prefixes have DIFFERENT lengths and whose
+    follow terminals are permuted between the rules (p A x | p B y | q r A y | q r B x).  The state after the shared terminal is
+    reached twice; the second arrival adds to each kernel item a terminal the OTHER item already has - the union over the
+    state does not grow.  LALR(1) and LR(1)-deterministic (the rules diverge at their second terminal); nothing else in the
+    automaton merges, so a construction that skips propagation 'when nothing grew' loses exactly these lookaheads."""
+    names = ["T" + c for c in T_CHARS]
+    rng.shuffle(names)
+    it = iter(names)
+    shared = next(it)
+    r2 = [next(it), next(it)]
+    follow = [next(it), next(it)]
+    lead = [next(it), next(it), next(it)]
+    longer = rng.random() < 0.3
+    prods = []
+    rules = ["A", "B"]
+    for nt, t in zip(rules, r2):
+        prods.append((nt, [shared, t] + ([shared] if longer else [])))
+    ctx = [[lead[0]], [lead[1], lead[2]]]
+    if rng.random() < 0.3:
+        ctx.append([lead[2], lead[0], lead[1]])
+    rng.shuffle(ctx)
+    top = []
+    for j, pre in enumerate(ctx):
+        perm = follow if j % 2 == 0 else follow[::-1]
+        for nt, f in zip(rules, perm):
+            top.append(("S", pre + [nt, f]))
+    prods = top + prods
+    tn = {"T" + c: c for c in T_CHARS}
+    used = {x for _, rhs in prods for x in rhs if x in tn}
+    return Gram(prods, {t: c for t, c in tn.items() if t in used})
+
+
+def samerest_grammar(rng):
+    """Family for the closure's lookahead computation per ITEM: 2-3 wrapper rules with the SAME right-hand side `B Rest` where
+    Rest is non-empty and nullable (one or two optional symbols), used with different follow terminals (S: P p | Q q;
+    P: B Opt; Q: B Opt; Opt: c | EMPTY).  One state then holds several items whose symbols after the dot nonterminal are
+    identical while their own lookaheads differ: FIRST(Rest lookahead) must be taken per item, not per rest."""
+    names = ["T" + c for c in T_CHARS]
+    rng.shuffle(names)
+    it = iter(names)
+    prods = []
+    k = rng.randint(2, 3)
+    rest = ["O1"] if rng.random() < 0.6 else ["O1", "O2"]
+    wr = ["W%d" % i for i in range(k)]
+    for w in wr:
+        prods.append(("S", [w, next(it)]))
+    for w in wr:
+        prods.append((w, ["B"] + rest))
+    prods.append(("B", [next(it)]))
+    for o in rest:
+        t = next(it)
+        alts = [[t], []]
+        rng.shuffle(alts)
+        for a in alts:
+            prods.append((o, a))
+    tn = {"T" + c: c for c in T_CHARS}
+    used = {x for _, rhs in prods for x in rhs if x in tn}
+    return Gram(prods, {t: c for t, c in tn.items() if t in used})
